@@ -1,7 +1,7 @@
 """Source of MANIFEST.json (bin/mkmanifest renders it). One entry per claimed property."""
 
 HOOK_COMMITS = ["f529e9d", "ae52c2c"]
-FIX_COMMITS = ["c71e8ce", "b266a7b", "3c8b2f5"]
+FIX_COMMITS = ["c71e8ce", "b266a7b", "3c8b2f5", "8a433c1", "8c9bd77", "b6b128e", "d4a32a0"]
 
 CHECKS = {
     "C19": dict(
@@ -74,6 +74,50 @@ CHECKS = {
              "recorded vector. The first-interval clause is checked by the interval-stream trace of C02.",
         note="Trusted: as C01; string order is checked by the runner (TLC has no order on strings).",
         design_ref="8/C17",
+    ),
+    "C02": dict(
+        category="model_checking",
+        technique="TLA+ spec Iterator.tla (machine M3 TimeDomainIterator + wrapper, declarative stream); TLC explores every day-tiling assignment x window x sound hint on a tiny calendar, and rebuilds the expected stream of every recorded window of the real iterator from schedule_at of every day (trace validation)",
+        text="MC_Iterator: the iterator written step for step as the code (positioning, consume-until-next-kind, day jump by a nondeterministic "
+             "but sound hint, clamps, take_while/clip wrapper) over 3 (quick) / 4 (thorough) supported days between a 'before 1900' and a "
+             "'10000-01-01' day, 6 day shapes, all windows on a grid with sub-minute and inverted bounds: at termination the emitted list "
+             "is exactly the pointwise partition; an unsound hint yields a TLC counterexample. Binding: iter_range of the real code on "
+             "corpus / hint-branch family / random expressions with windows from minutes to open-ended; EVERY day of the window is "
+             "evaluated with schedule_at (run-length encoded) and Trace_Iter requires the emitted intervals to equal the declarative "
+             "stream, so no skipped day goes unexamined however long the skip.",
+        note="Trusted: TLC, the library's own schedule_at as oracle (as the property states), the harness's run-length encoding.",
+        design_ref="8/C02",
+    ),
+    "C03": dict(
+        category="model_checking",
+        technique="Iterator.tla: State / NextChange defined on the daily schedules; MC_Iterator invariant FirstOk; recorded state / is_* / next_change calls validated by Trace_Iter against schedule_at of every day up to the answer or to a horizon proving 'none'",
+        text="Model: the first interval of the open-ended stream gives state and next_change (all schedules/instants of the tiny calendar). "
+             "Binding: state, is_open/is_closed/is_unknown and next_change of the real code at selector boundaries, random and sub-minute "
+             "instants; Trace_Iter re-derives both from the recorded day schedules: the answer must be the first change, strictly after t, "
+             "below 10000-01-01; 'none' is confirmed up to 400 years after the last explicit year (Gregorian periodicity, MC_Calendar) when "
+             "the expression allows it, otherwise counted as unverified in evidence.",
+        note="Trusted: as C02; the periodicity argument for 'none' answers.",
+        design_ref="8/C03",
+    ),
+    "C08": dict(
+        category="model_checking",
+        technique="Iterator.tla clamps (START/END) model checked in MC_Iterator; recorded range/point events at and far outside both bounds validated by Trace_Iter with the real bounds",
+        text="Model: day 0 is before the range, day N+1 is 10000-01-01; windows start and end outside: closed outside, nothing before the "
+             "requested start or after min(end, END), next_change never at/after END. Binding: instants at both bounds +-1 min / +-1 day / "
+             "+-800 days and in years -262000 .. 262000, expressions straddling the bounds (9999, 1900, week 53, Dec 31 22:00-26:00, PH on "
+             "the bounds ...): schedule_at must be one closed period outside, streams and next_change are re-derived as in C02/C03.",
+        note="Trusted: as C02/C03.",
+        design_ref="8/C08",
+    ),
+    "C16": dict(
+        category="model_checking",
+        technique="Iterator.tla with the interval-size bound (both exits as coded): BoundOk model checked; recorded bounded vs exact answers of the real code validated by Trace_Iter",
+        text="Model: MC_Iterator_bound explores every schedule/window/hint with B = 1 and 2 days: the first interval's end is exact or none, "
+             "exact whenever the exact change is within B-24h, none whenever beyond B, state unchanged. Binding: next_change/state with "
+             "B from 1 day to 30 years at instants inside long intervals, compared with the library's exact answers (which C03's "
+             "re-derivation checks in the same event).",
+        note="Trusted: as C03; the exact answer is the library's unbounded next_change.",
+        design_ref="8/C16",
     ),
 }
 
